@@ -10,6 +10,10 @@
      T <id> <tok> ...               writer, tree: L,<tag>,<val> | N,<tag>,<k> | E
      W <id> <tok>                   writer, one call of the minimal-width API
      D ...                          derived encoders: implementation only (ignored here)
+     Z <id> <ty> <tag> <v>          derived encoders of zoo type <ty>: denc, then ddec of the bytes
+     Y <id> <ty> <hex>              derived decoder of zoo type <ty> on arbitrary bytes
+     K <id> <ty> <cap> <prefix> <v> denc_wb into a WriteBuf of <cap> bytes after a prefix
+     C <id> <cap> <tok> ...         a script on one WriteBuf: writer tokens, A, R<k>
 *)
 open Model
 open Util
@@ -169,6 +173,75 @@ let count_char (c : char) (s : string) : int =
   String.iter (fun d -> if d = c then incr k) s;
   !k
 
+(* ---------------------------------------------------------------- derived values *)
+let rec nat_of_int (i : int) : nat = if i <= 0 then O else S (nat_of_int (i - 1))
+let rec int_of_nat (n : nat) : int = match n with O -> 0 | S m -> 1 + int_of_nat m
+
+let rec dval_s (v : dval) : string =
+  match v with
+  | XInt z -> "i" ^ string_of_z z
+  | XBool b -> if b then "b1" else "b0"
+  | XBits n -> "f" ^ string_of_n n
+  | XBytes s -> "x" ^ hex_of_bytes s
+  | XNone -> "-"
+  | XSome x -> "+" ^ dval_s x
+  | XNull -> "~"
+  | XNN x -> "!" ^ dval_s x
+  | XList l -> "[" ^ String.concat ";" (List.map dval_s l) ^ "]"
+  | XRec l -> "{" ^ String.concat ";" (List.map dval_s l) ^ "}"
+  | XVar (i, x) -> "<" ^ string_of_int (int_of_nat i) ^ ":" ^ dval_s x ^ ">"
+  | XUnit i -> "#" ^ string_of_int (int_of_nat i)
+
+let dval_of_s (s : string) : dval =
+  let n = String.length s in
+  let is_digit c = c >= '0' && c <= '9' in
+  let is_hex c = is_digit c || (c >= 'a' && c <= 'f') in
+  let rec scan p i = if i < n && p s.[i] then scan p (i + 1) else i in
+  let rec at (i : int) : dval * int =
+    match s.[i] with
+    | 'i' ->
+      let j0 = if i + 1 < n && s.[i + 1] = '-' then i + 2 else i + 1 in
+      let j = scan is_digit j0 in
+      (XInt (z_of_string (String.sub s (i + 1) (j - i - 1))), j)
+    | 'b' -> (XBool (s.[i + 1] = '1'), i + 2)
+    | 'f' -> let j = scan is_digit (i + 1) in (XBits (n_of_string (String.sub s (i + 1) (j - i - 1))), j)
+    | 'x' -> let j = scan is_hex (i + 1) in (XBytes (bytes_of_hex (String.sub s (i + 1) (j - i - 1))), j)
+    | '-' -> (XNone, i + 1)
+    | '~' -> (XNull, i + 1)
+    | '+' -> let (v, j) = at (i + 1) in (XSome v, j)
+    | '!' -> let (v, j) = at (i + 1) in (XNN v, j)
+    | '[' -> let (l, j) = seq (i + 1) ']' in (XList l, j)
+    | '{' -> let (l, j) = seq (i + 1) '}' in (XRec l, j)
+    | '<' ->
+      let j = scan is_digit (i + 1) in
+      let idx = int_of_string (String.sub s (i + 1) (j - i - 1)) in
+      let (v, k) = at (j + 1) in
+      if s.[k] <> '>' then failwith "bad variant";
+      (XVar (nat_of_int idx, v), k + 1)
+    | '#' -> let j = scan is_digit (i + 1) in (XUnit (nat_of_int (int_of_string (String.sub s (i + 1) (j - i - 1)))), j)
+    | c -> failwith ("bad value text: " ^ s)
+  and seq (i : int) (close : char) : dval list * int =
+    if s.[i] = close then ([], i + 1)
+    else begin
+      let (v, j) = at i in
+      if s.[j] = ';' then let (l, k) = seq (j + 1) close in (v :: l, k)
+      else if s.[j] = close then ([v], j + 1)
+      else failwith ("bad sequence in " ^ s)
+    end in
+  let (v, j) = at 0 in
+  if j <> n then failwith ("trailing text in " ^ s);
+  v
+
+let zoo_ty (s : string) : dty =
+  match zoo (n_of_string s) with Some d -> d | None -> failwith ("no zoo type " ^ s)
+
+let hex_or_dash b = if b = [] then "-" else hex_of_bytes b
+
+let dres_s (r : dval rres) : string =
+  match r with ROk v -> "=" ^ dval_s v | RErr _ -> "E" | RPanic _ -> "P" | RFuel -> "F"
+
+let rec zeros (k : int) : n list = if k <= 0 then [] else N0 :: zeros (k - 1)
+
 (* ---------------------------------------------------------------- writer tokens *)
 let split_tok (t : string) : string list = String.split_on_char ',' t
 
@@ -305,6 +378,67 @@ let () =
           | _ -> Printf.printf "W %s 0\n" id
         end else
           Printf.printf "W %s %s\n" id (hex_of_bytes (w_ops ops))
+      | "Z" :: id :: ty :: tg :: v :: impl ->
+        let d = zoo_ty ty in
+        let value = dval_of_s v in
+        if spec_mode then begin
+          (* impl = | <enc> <dec>: the bytes the real encoder wrote must decode (model decoder) to the
+             value, and the real decoder must have returned the value *)
+          match impl with
+          | ["|"; enc; dec] ->
+            let ok =
+              if enc = "E" then (match denc d (tag_of_s tg) value with ROk _ -> false | _ -> true)
+              else if enc = "P" || String.contains enc '!' then false
+              else
+                (match ddec d (bytes_of_hex enc) with
+                 | ROk v' -> v' = value
+                 | _ -> false)
+                && dec = "=" ^ dval_s value in
+            Printf.printf "Z %s %d\n" id (if ok then 1 else 0)
+          | _ -> Printf.printf "Z %s 0\n" id
+        end else begin
+          match denc d (tag_of_s tg) value with
+          | ROk b -> Printf.printf "Z %s %s %s\n" id (hex_or_dash b) (dres_s (ddec d b))
+          | RErr _ -> Printf.printf "Z %s E -\n" id
+          | RPanic _ -> Printf.printf "Z %s P -\n" id
+          | RFuel -> Printf.printf "Z %s F -\n" id
+        end
+      | ["Y"; id; ty; hex] ->
+        if not spec_mode then
+          Printf.printf "Y %s %s\n" id (dres_s (ddec (zoo_ty ty) (bytes_of_hex hex)))
+      | ["K"; id; ty; cap; prefix; v; "|"; res; slice] when spec_mode ->
+        (* the previously written prefix is intact; a failed write of a structure leaves exactly the
+           prefix; a successful write decodes (model decoder) to the value *)
+        let d = zoo_ty ty in
+        let p = bytes_of_hex prefix and sl = bytes_of_hex slice in
+        let ok = (res = "0") in
+        let intact = res <> "P" && mon_prefix_intact d p sl ok in
+        let rec drop k l = if k <= 0 then l else match l with [] -> [] | _ :: r -> drop (k - 1) r in
+        let decodes = (not ok) ||
+          (match ddec d (drop (List.length p) sl) with ROk v' -> v' = dval_of_s v | _ -> false) in
+        Printf.printf "K %s %d %s\n" id (if intact && decodes then 1 else 0)
+          (if not intact then "prefix-or-atomicity" else if not decodes then "written-does-not-decode" else "")
+      | ["K"; id; ty; cap; prefix; v] ->
+        if not spec_mode then begin
+          let w0 = wb_new (zeros (int_of_string cap)) in
+          let (_, w1) = wb_write_all w0 (bytes_of_hex prefix) in
+          let (r, w2) = denc_wb (zoo_ty ty) TgAnon (dval_of_s v) w1 in
+          let sl = match wb_as_slice w2 with ROk b -> hex_or_dash b | _ -> "P" in
+          Printf.printf "K %s %s %s\n" id
+            (match r with ROk _ -> "0" | RErr _ -> "E" | RPanic _ -> "P" | RFuel -> "F") sl
+        end
+      | "C" :: id :: cap :: toks ->
+        if not spec_mode then begin
+          let ops = List.map (fun t ->
+            if t = "A" then BAnchor
+            else if String.length t > 1 && t.[0] = 'R' then
+              BRewind (nat_of_int (int_of_string (String.sub t 1 (String.length t - 1))))
+            else BOp (op_of_tok t)) toks in
+          let (rs, w) = wb_run (wb_new (zeros (int_of_string cap))) [] ops in
+          let res = String.concat "" (List.map (function ROk _ -> "0" | RErr _ -> "E" | RPanic _ -> "P" | RFuel -> "F") rs) in
+          let sl = match wb_as_slice w with ROk b -> hex_or_dash b | _ -> "P" in
+          Printf.printf "C %s %s %s %s\n" id (if res = "" then "-" else res) sl (hex_or_dash w.wb_mem)
+        end
       | "D" :: _ -> ()
       | _ -> if line <> "" then failwith ("bad line: " ^ line)
     done
